@@ -70,7 +70,7 @@ func TestC13Handshake(t *testing.T) {
 		c := c13case{
 			clientRev: cr, serverRev: sr,
 			answer: rapid.SampledFrom([]string{"hello", "hello", "hello-delayed", "hello-delayed", "hello-split", "hello-split", "exception", "wrong-packet", "garbage",
-				"truncated-hello-cut", "cut", "silence"}).Draw(rt, "answer"),
+				"truncated-hello-cut", "truncated-then-silence", "cut", "silence"}).Draw(rt, "answer"),
 			readTimeout: rapid.SampledFrom([]time.Duration{0, 50 * time.Millisecond, time.Second}).Draw(rt, "read-timeout"),
 			handshakeTO: rapid.SampledFrom([]time.Duration{0, 10 * time.Second, 2 * time.Second}).Draw(rt, "handshake-timeout"),
 			db:          credStr.Draw(rt, "db"), user: credStr.Draw(rt, "user"), pass: credStr.Draw(rt, "pass"), quota: credStr.Draw(rt, "quota"),
@@ -134,6 +134,18 @@ func runC13(rt *rapid.T, c c13case, st *stats.Collector) {
 		inner := hello.Bytes
 		hello.Bytes = func(cs *ref.ClientStream) []byte { b := inner(cs); return b[:len(b)/2] }
 		hello.Then = func(cn *simnet.Conn) { cn.FailReads(fmt.Errorf("EOF")) }
+	case "truncated-then-silence":
+		// A strict prefix of a hello or of an exception (at least the packet code), then nothing
+		// more, with the connection left open: only the handshake timeout can end this.
+		inner := hello.Bytes
+		exc := c.clientRev%2 == 0
+		hello.Bytes = func(cs *ref.ClientStream) []byte {
+			b := inner(cs)
+			if exc {
+				b = Item{Kind: "exception", Exc: []ref.Exception{{Code: 516, Name: "DB::Exception", Message: "Authentication failed"}}}.Encode(N, 0)
+			}
+			return b[:1+(c.serverRev+len(c.user))%(len(b)-1)]
+		}
 	case "cut":
 		hello = simnet.Step{Name: "cut", When: simnet.AfterHello, Then: func(cn *simnet.Conn) { cn.FailReads(fmt.Errorf("connection reset by peer")) }}
 	case "silence":
